@@ -2,6 +2,7 @@ import FemtoVerif.Driver.C11
 import FemtoVerif.Driver.Gc
 import FemtoVerif.Driver.C02
 import FemtoVerif.Driver.C13
+import FemtoVerif.Driver.C08
 open Lean
 
 namespace Femto.Driver
@@ -19,6 +20,8 @@ def dispatch (op : String) (j : Json) : Except String Json :=
   | "c01.check" => GcD.c01Check j
   | "c02.transform" => C02.transform j
   | "c13.count" => C13.count j
+  | "c08.writer" => C08.writer j
+  | "c08.adj" => C08.adj j
   | _ => .error s!"unknown op {op}"
 
 def handleLine (line : String) : String :=
